@@ -236,6 +236,25 @@ func c18GenStep(g *Rng, k c18Knobs, i int, tier string) c18Step {
 		}
 		st.Intent = append(st.Intent, "benign:"+op)
 	}
+	if g.Bool(0.12) {
+		// benign: a namespace declaration nobody uses is added to the root start tag in flight (exclusive canonicalisation leaves
+		// unused declarations out of the signed octets: the signature stands). Its prefix happens to be the name of an attribute
+		// the checks read; its value is what that attribute would need to say - or must not say.
+		slo := c18SLO(k)
+		switch g.Intn(5) {
+		case 0:
+			st.Wire = append(st.Wire, c18Op{Op: "declare-unused-ns", Arg: "Destination", Val: slo})
+		case 1:
+			st.Wire = append(st.Wire, c18Op{Op: "declare-unused-ns", Arg: "Destination", Val: c18OtherSP + "/saml/slo"})
+		case 2:
+			st.Wire = append(st.Wire, c18Op{Op: "declare-unused-ns", Arg: "IssueInstant", Val: "@delivery"})
+		case 3:
+			st.Wire = append(st.Wire, c18Op{Op: "declare-unused-ns", Arg: "IssueInstant", Val: "1999-01-01T00:00:00Z"})
+		default:
+			st.Wire = append(st.Wire, c18Op{Op: "declare-unused-ns", Arg: Pick(g, "ID", "Version", "InResponseTo", "Value"), Val: "urn:example:unused"})
+		}
+		st.Intent = append(st.Intent, "benign:declare-unused-ns:"+st.Wire[len(st.Wire)-1].Arg)
+	}
 	st.Resp = &spec
 	return st
 }
@@ -505,6 +524,7 @@ func c18Defect(g *Rng, k c18Knobs, st *c18Step, s *c18Spec, dim string) {
 
 type c18Model struct {
 	k          c18Knobs
+	shadowID   bool   // an unused namespace prefix called ID was declared on the root in flight
 	wellFormed bool   // a samlp:LogoutResponse document in the encoding of the entry point
 	malformed  string // why not
 	dest       *string
@@ -628,6 +648,14 @@ func c18Run(k c18Knobs, st *c18Step) *c18Model {
 				}
 			} else if i, ok := c18AttrIdx[op.Arg]; ok && !c18Eq(attrs[i], op.Val) {
 				attrs[i], eff = sp(op.Val), true
+			}
+		case "declare-unused-ns":
+			// nothing the statement speaks about changes: not the signed content, not an attribute of the response
+			eff = true
+			if op.Arg == "ID" {
+				// the XML-DSig library (goxmldsig, a dependency) resolves the Reference by the first attribute called ID in any
+				// namespace: a prefix of that name makes it miss the element and the response is refused - fail-closed, not ours to judge
+				m.shadowID = true
 			}
 		case "remove-attr":
 			if op.Arg == "Destination" && m.dest != nil {
@@ -767,6 +795,9 @@ func (m *c18Model) verdict(now int64) (expect string, bad []string, open []strin
 	}
 	if m.noise {
 		open = append(open, "byte-noise-on-a-valid-response")
+	}
+	if m.shadowID && m.signer >= 0 {
+		open = append(open, "unused-namespace-prefix-named-like-the-id-attribute")
 	}
 	sort.Strings(bad)
 	sort.Strings(open)
@@ -930,6 +961,12 @@ func c18Build(k c18Knobs, st *c18Step, m *c18Model, t0 time.Time) []byte {
 			host.AddChild(sig)
 		case "set-attr":
 			root.CreateAttr(op.Arg, op.Val)
+		case "declare-unused-ns":
+			v := op.Val
+			if v == "@delivery" {
+				v = lexicalForm(t0.Add(ms(st.DelayMs)), 0)
+			}
+			root.CreateAttr("xmlns:"+op.Arg, v)
 		case "remove-attr":
 			root.RemoveAttr(op.Arg)
 		case "set-issuer":
